@@ -390,10 +390,15 @@ class ConfigLoader(BaseLoader):
                 "cannot check a configuration an abstract type")
         BaseLoader.__init__(self)
         self.schema = schema
+        self._base_schema = schema
         self._private_schema = False
         self._active_urls = []
 
     def loadResource(self, resource):
+        # Each load starts from the schema the loader was created
+        # with; a %import extends a private copy for that load only.
+        self.schema = self._base_schema
+        self._private_schema = False
         sm = self.createSchemaMatcher()
         self._parse_resource(sm, resource)
         result = sm.finish(), CompositeHandler(sm.handlers, self.schema)
